@@ -15,7 +15,9 @@ DOMAINS = {
     "Cexample": [[0.0, 1 / math.e]],
 }
 MAXIMISER = {
-    "DoubleSine": lambda o: [o.tmax], "Perturbed_DoubleSine": lambda o: [o.tmax], "DifficultFunc": lambda o: [0.5],
+    # the documented maximiser is the constructor argument tmax (not whatever the object stored)
+    "DoubleSine": lambda o: [getattr(o, "_verif_args", {}).get("tmax", 0.5)],
+    "Perturbed_DoubleSine": lambda o: [getattr(o, "_verif_args", {}).get("tmax", 0.5)], "DifficultFunc": lambda o: [0.5],
     "Ackley": lambda o: [0.0, 0.0], "Ackley_Normalized": lambda o: [0.0, 0.0],
     "Himmelblau": lambda o: [3.0, 2.0], "Himmelblau_Normalized": lambda o: [3.0, 2.0],
     "Rastrigin": lambda o: [0.0, 0.0], "Rastrigin_Normalized": lambda o: [0.0, 0.0, 0.0], "Cexample": lambda o: [0.0],
@@ -38,6 +40,10 @@ def construct(cls_name, rnd):
         obj = cls(**args)
     finally:
         np.random.normal = saved
+    try:
+        obj._verif_args = dict(args)
+    except Exception:
+        pass
     return obj, args
 
 
@@ -92,6 +98,19 @@ def gen_obj_case(seed, idx, sigs, cls_name=None, n_points=60):
             case.fail("C17", "exceeds-fmax", f"f({p}) = {v!r} > fmax = {fmax!r}", cls=cls_name)
         if float(v2) != v:
             case.fail("C17", "impure", f"two evaluations at {p} differ", cls=cls_name)
+        # the same point handed over as the caller's own float64 array (a row of a grid), as a tuple: same value, and the
+        # caller's array comes back untouched
+        if rnd.random() < 0.25:
+            grid = np.array([list(p), list(p)], dtype=float)
+            row = grid[1]
+            try:
+                va = float(obj.f(row)); vb = float(obj.f(row)); vt = float(obj.f(tuple(p)))
+            except Exception as e:
+                case.fail("C17", "exception-in-domain", f"{type(e).__name__}: {e} at {p} given as an array / tuple", cls=cls_name); continue
+            if grid.tolist() != [list(p), list(p)]:
+                case.fail("C17", "argument-modified", f"the caller's array {list(p)} came back as {row.tolist()}", cls=cls_name)
+            elif va != v or vb != v or vt != v:
+                case.fail("C17", "impure", f"f({p}) = {v!r} as a list, {va!r} / {vb!r} as an array, {vt!r} as a tuple", cls=cls_name)
     # purity across calls: the same object must give what a fresh object gives, whatever it evaluated before
     if DOMAINS[cls_name] is None:
         fresh, _ = construct(cls_name, random.Random(f"obj-{seed}-{idx}-{cls_name}"))
